@@ -1,5 +1,6 @@
 import Zrnt.Beacon.State
 import Zrnt.Beacon.Spec.Helpers
+import Zrnt.Beacon.Committees
 /-!
 # C08 — the epochs context: from scratch (`ctxOf`) and incrementally (`rotate`, `afterDeposit`, `afterUpgrade`)
 
@@ -64,40 +65,53 @@ structure Ctx where
 def committeesPerSlot (cfg : Config) (n : Nat) : Nat :=
   max 1 (min cfg.MAX_COMMITTEES_PER_SLOT (n / cfg.SLOTS_PER_EPOCH / cfg.TARGET_COMMITTEE_SIZE))
 
+/-! The shuffling, committee and proposer functions are the literal specification functions of
+`Zrnt.Beacon.Committees.Spec` (`compute_committee`, `compute_proposer_index` over
+`Zrnt.Shuffle.Spec.computeShuffledIndex`) — the oracle of C07, about which C07 proves that zrnt's
+`NewEpochsContext` model answers exactly these (`ctx_committee_eq_spec`, `ctx_proposer_eq_spec_partial`).
+They are fed the active set and the seeds computed from the flat state. -/
+
+/-- the constants `Committees.Spec` reads -/
+def cfgC (cfg : Config) : Committees.Cfg :=
+  { SLOTS_PER_EPOCH := cfg.SLOTS_PER_EPOCH, TARGET_COMMITTEE_SIZE := cfg.TARGET_COMMITTEE_SIZE,
+    MAX_COMMITTEES_PER_SLOT := cfg.MAX_COMMITTEES_PER_SLOT, SHUFFLE_ROUND_COUNT := cfg.SHUFFLE_ROUND_COUNT,
+    EPOCHS_PER_HISTORICAL_VECTOR := cfg.EPOCHS_PER_HISTORICAL_VECTOR, MIN_SEED_LOOKAHEAD := cfg.MIN_SEED_LOOKAHEAD,
+    MAX_EFFECTIVE_BALANCE := cfg.MAX_EFFECTIVE_BALANCE, SYNC_COMMITTEE_SIZE := cfg.SYNC_COMMITTEE_SIZE }
+
+/-- the part of a validator `Committees.Spec` reads -/
+def valC (v : Validator) : Committees.Val := ⟨v.activation_epoch, v.exit_epoch, v.effective_balance⟩
+
+/-- a `Committees.Spec` result in this file's error monad -/
+def liftRes {α : Type} : Res α → SM α
+  | .ok a => pure a
+  | .err => invalid "assertion of the specification"
+  | .panic => invalid "panic"
+  | .outOfFuel => throw (.fuel "specification loop")
+
+/-- `active[compute_shuffled_index(j, len(active), seed)]` -/
+def shuffledAt (cfg : Config) (active : List Nat) (seed : Bytes) (j : Nat) : SM Nat :=
+  match Zrnt.Shuffle.Spec.computeShuffledIndex Spec.hash cfg.SHUFFLE_ROUND_COUNT j active.length seed with
+  | some k => idx active k "indices"
+  | none => invalid "compute_shuffled_index"
+
 /-- the shuffling of an epoch from its two inputs: the active set and the attester seed -/
 def shufflingOfParts (cfg : Config) (epoch : Nat) (active : List Nat) (seed : Bytes) : SM ShufflingEpoch := do
   let n := active.length
-  let arr := active.toArray
-  let shuffling ← (List.range n).mapM fun j => do
-    let k ← compute_shuffled_index cfg j n seed
-    pure (arr.getD k 0)
+  let shuffling ← (List.range n).mapM (shuffledAt cfg active seed)
   let cps := committeesPerSlot cfg n
   let committees ← (List.range cfg.SLOTS_PER_EPOCH).mapM fun slot =>
     (List.range cps).mapM fun index =>
       -- get_beacon_committee: compute_committee(indices, seed, (slot % SLOTS_PER_EPOCH) * cps + index, cps * SLOTS_PER_EPOCH)
-      compute_committee cfg active seed (slot * cps + index) (cps * cfg.SLOTS_PER_EPOCH)
+      liftRes (Committees.Spec.compute_committee Spec.hash (cfgC cfg) active seed (slot * cps + index) (cps * cfg.SLOTS_PER_EPOCH))
   pure ⟨epoch, active, shuffling, committees⟩
 
 def shufflingOf (cfg : Config) (st : State) (epoch : Nat) : SM ShufflingEpoch := do
   shufflingOfParts cfg epoch (get_active_validator_indices st epoch) (← get_seed cfg st epoch DOMAIN_BEACON_ATTESTER)
 
-def MAX_RANDOM_BYTE : Nat := 2 ^ 8 - 1
-
 /-- `compute_proposer_index`; the pyspec's `while True` is bounded by the 32 000 candidates zrnt tries
 (`ComputeProposerIndex`: 1000 hashes × 32 bytes), after which zrnt returns an error. -/
-def compute_proposer_index (cfg : Config) (validators : List Validator) (indices : List Nat) (seed : Bytes) : SM Nat := do
-  require (indices.length > 0) "compute_proposer_index: no active validators"
-  let total := indices.length
-  let rec loop (fuel i : Nat) : SM Nat :=
-    match fuel with
-    | 0 => throw (.fuel "compute_proposer_index")
-    | fuel + 1 => do
-      let candidate_index ← idx indices (← compute_shuffled_index cfg (i % total) total seed) "indices"
-      let random_byte := ((Spec.hash (seed ++ uintToBytes 8 (i / 32))).get! (i % 32)).toNat
-      let effective_balance := (← idx validators candidate_index "validators").effective_balance
-      if effective_balance * MAX_RANDOM_BYTE ≥ cfg.MAX_EFFECTIVE_BALANCE * random_byte then pure candidate_index
-      else loop fuel (i + 1)
-  loop 32000 0
+def compute_proposer_index (cfg : Config) (validators : List Validator) (indices : List Nat) (seed : Bytes) : SM Nat :=
+  liftRes (Committees.Spec.compute_proposer_index Spec.hash (cfgC cfg) (validators.map valC) indices seed 32000 0)
 
 /-- proposers of all slots of `epoch` (`get_beacon_proposer_index` at each slot) -/
 def proposersOf (cfg : Config) (st : State) (epoch : Nat) (active : List Nat) : SM Proposers := do
